@@ -500,6 +500,27 @@ func (e *Engine) syncIntrinsic(name string, fn *ssa.Function) (handler, bool) {
 			e.syncOf(a[0]).gen++
 			return nil
 		}, true
+	case "(*sync.Pool).Put":
+		return func(c *frame, f *ssa.Function, a []value) value { return nil }, true
+	case "(*sync.Pool).Get":
+		// a pool never has to return a pooled object: always take the New path
+		return func(c *frame, f *ssa.Function, a []value) value {
+			p, ok := a[0].(*value)
+			if !ok || p == nil {
+				panic(targetPanic{"nil pointer dereference (sync.Pool)"})
+			}
+			st := (*p).(structure)
+			pt := deref(f.Signature.Recv().Type()).Underlying().(*types.Struct)
+			for i := 0; i < pt.NumFields(); i++ {
+				if pt.Field(i).Name() == "New" {
+					if isNilFunc(st[i]) {
+						return iface{}
+					}
+					return e.call(c, token.NoPos, st[i], nil, nil)
+				}
+			}
+			return iface{}
+		}, true
 	case "sync.NewCond":
 		return func(c *frame, f *ssa.Function, a []value) value {
 			p := new(value)
